@@ -45,3 +45,13 @@ Definition u_fmt (p : radix_params) :=
   fmt_u (k_mul p) (k_divrem p) (k_divdig p) (k_to_bits p) (k_to_inexact p) p.
 Definition i_fmt (p : radix_params) :=
   fmt_i (k_mul p) (k_divrem p) (k_divdig p) (k_to_bits p) (k_to_inexact p) p.
+
+(** round trips (the composition the property text ends with) *)
+Definition u_rt_str (p : radix_params) (u : list Z) (r : Z) :=
+  do s <- u_to_str_radix p u r; u_from_str_radix p s r.
+Definition i_rt_str (p : radix_params) (x : bigint) (r : Z) :=
+  do s <- i_to_str_radix p x r; i_from_str_radix p s r.
+Definition u_rt_radix_le (p : radix_params) (u : list Z) (r : Z) :=
+  do d <- u_to_radix_le p u r; u_from_radix_le p d r.
+Definition u_rt_radix_be (p : radix_params) (u : list Z) (r : Z) :=
+  do d <- u_to_radix_be p u r; u_from_radix_be p d r.
